@@ -196,7 +196,7 @@ Proof.
 Qed.
 
 (* ---- whole packets; hypothesis: the NaN-kept run is not at its overflow limit (then neither is the dense run) *)
-Lemma filter_length_le (l : list point) : (length (filter p_valid l) <= length l)%nat.
+Lemma filter_length_le_pts (l : list point) : (length (filter p_valid l) <= length l)%nat.
 Proof. induction l as [|p l IH]; cbn; [lia|]. destruct (p_valid p); cbn; lia. Qed.
 
 Lemma Rout_errs_l on od e : Rout on od -> clouds_of e = [] -> Rout (on ++ e) od.
@@ -211,7 +211,7 @@ Proof.
   intros HR Hov. pose proof HR as (Hd & Hc & Hn & Hs & Ho & Hq).
   unfold process_msop. cbv zeta.
   assert (Hovd : Z.of_nat (length (v_open vd)) <= CLOUD_POINT_MAX).
-  { rewrite Ho. pose proof (filter_length_le (v_open vn)). lia. }
+  { rewrite Ho. pose proof (filter_length_le_pts (v_open vn)). lia. }
   destruct (Z.of_nat (length (v_open vn)) >? CLOUD_POINT_MAX) eqn:E1; [lia|].
   destruct (Z.of_nat (length (v_open vd)) >? CLOUD_POINT_MAX) eqn:E2; [lia|].
   rewrite Hd, Hc, Hs. change (c_wait_for_difop (densify (v_cfg vn))) with (c_wait_for_difop (v_cfg vn)).
